@@ -2,7 +2,7 @@ SPECIFICATION Spec
 CONSTANTS
   RulesPaths = {"a.rules", "b.rules"}
   CsvPaths = {"c.csv"}
-  RulesOK = {"R1", "R2"}
+  RulesOK = {"R1", "R2", "R3", "R4"}
   RulesBad = {"RBAD", "RMISSING"}
   CsvOK = {"K1", "K2"}
   CsvBad = {"KMISSING"}
